@@ -10,6 +10,12 @@
 # capacity check tested, on the same bucket, with no increment in between"
 # becomes term equality + edge dominance.  Rules R1..R5 are phrased over these
 # terms, CFG guards (edge dominators), must-pass-through and folded constants.
+# R6 follows the priority from the scheduling parameter through the item field
+# to the operands of the sort comparison on the resolved clang types and
+# evaluates the composed integer conversions over the finite int16 domain.
+# R7 evaluates tdma_sched_reset concretely (same transfer functions, constant
+# folding through the CFG) for every ring position and collects the set of
+# buckets whose fill count ends as 0.
 
 import os
 import shutil
@@ -34,7 +40,12 @@ EXPLANATION = (
     "and leave at the end marker (R3); tdma_sched_execute runs the current bucket's items 0..n-1 of "
     "the sorted sequence with their own (p1,p2,p3) and empties that bucket on every non-error return "
     "(R4); the sort helper initialises the full identity sequence and exchanges when the earlier "
-    "element's prio is greater, comparing prio only (R5).")
+    "element's prio is greater, comparing prio only (R5); the priority parameter stored by tdma_schedule, the "
+    "item field prio, every temporary and every integral conversion up to the two operands of the sort's "
+    "comparison (resolved, desugared clang types) compose to a chain that preserves the order of all int16 "
+    "priorities -- evaluated over the 65536-value domain, violations come with a concrete pair (R6); "
+    "tdma_sched_reset, whose control flow depends on the ring position only, is evaluated concretely for each "
+    "of the 25 positions and leaves num_items = 0 in every bucket other than the current one (R7).")
 ASSUMPTIONS = [
     "type-based aliasing: stores through int*/non-scheduler lvalues do not modify scheduler fields; "
     "distinct field names of the scheduler structs do not overlap",
@@ -46,6 +57,10 @@ ASSUMPTIONS = [
     "struct l1s (the single scheduler instance) is zero-initialised by the C runtime",
     "callbacks run by tdma_sched_execute do not advance the ring (tdma_sched_advance is called by the frame "
     "interrupt between executions), so sched->cur_bucket names the same bucket before and after the callbacks",
+    "integer widths are those of the firmware target as resolved by clang --target=arm-none-eabi (char 8, short 16, "
+    "int/long 32, long long 64 bits); an out-of-range conversion to a signed type wraps modulo 2^N (gcc/clang)",
+    "the bucket the running tdma_sched_execute iterates over may be left to it by tdma_sched_reset (it is emptied "
+    "by R4's store); every other bucket must be emptied by the reset itself",
 ]
 
 FW = "src/target/firmware"
@@ -1571,15 +1586,16 @@ def r4_execute(a):
             "emptied", "emptied" if clean_in[node.id] else "not emptied after the last callback on some path",
             clean_in[node.id], node)
     a.L.floor(R, "non-error exits of tdma_sched_execute", nret, 1)
+    return a.sort
 
 
 # ---------------------------------------------------------------- R5 sort shape
 
-def r5_sort(a):
+def r5_sort(a, sort):
     R = "C08.R5"
-    if a.sort is None:
+    if sort is None:
         raise AnalysisError("tdma_sched_execute(): the priority sort helper could not be identified")
-    name, bi, qi = a.sort
+    name, bi, qi = sort
     fn = a.fns[name]
     g = fn.g
     SEQ = ("p", qi, fn.params[qi].get("name"))
@@ -1750,6 +1766,536 @@ def r5_sort(a):
          "exchange when prio[earlier] > prio[later]", found, good, e1["node"])
 
 
+# ---------------------------------------------------------------- R6 priority width
+
+# integer types of the firmware target (clang --target=arm-none-eabi, ILP32): bits, signed
+ARM_INT = {"signed char": (8, True), "unsigned char": (8, False), "short": (16, True), "unsigned short": (16, False),
+           "int": (32, True), "unsigned int": (32, False), "long": (32, True), "unsigned long": (32, False),
+           "long long": (64, True), "unsigned long long": (64, False)}
+PRIO_LO, PRIO_HI = -32768, 32767          # the property's priority domain: int16
+
+
+def int_type(tu, tdict):
+    """(spelled name, bits, signed) of the resolved (desugared) integer type of an AST type record, else None."""
+    qt = strip_const((tdict or {}).get("qualType", ""))
+    d = strip_const((tdict or {}).get("desugaredQualType") or qt)
+    hops = 0
+    while d not in ARM_INT and d in tu.typedefs and hops < 8:
+        td = tu.typedefs[d].get("type", {})
+        d = strip_const(td.get("desugaredQualType") or td.get("qualType", ""))
+        hops += 1
+    if d in ARM_INT:
+        return (qt,) + ARM_INT[d]
+    return None
+
+
+def conv(v, t):
+    """C integer conversion of the mathematical value v to type t (modular; out-of-range conversion to a signed
+    type as implemented by gcc/clang)."""
+    bits, signed = t[1], t[2]
+    v &= (1 << bits) - 1
+    if signed and v >= 1 << (bits - 1):
+        v -= 1 << bits
+    return v
+
+
+def through(links, v):
+    for l in links:
+        v = conv(v, l["type"])
+    return v
+
+
+def tdesc(t):
+    return "%s (%d-bit %s)" % (t[0], t[1], "signed" if t[2] else "unsigned")
+
+
+class PrioFlow:
+    """Where does an integer value come from, and through which integer types does it pass?  Resolves an
+    expression through parentheses, integral conversions (implicit and explicit) and scalar locals (all their
+    definitions) to its source: the item field `prio` or a parameter.  Result: alternatives
+    (source, [links source-first]); None when the value is computed in any other way."""
+
+    def __init__(self, a, fn):
+        self.a, self.tu, self.fn = a, a.tu, fn
+        self.defs, self.dirty = {}, set()
+        for n in walk(fn.f):
+            k = kind(n)
+            if k == "VarDecl" and n.get("init") and kids(n):
+                self.defs.setdefault(n["id"], []).append(kids(n)[-1])
+            elif k == "BinaryOperator" and n.get("opcode") == "=":
+                l = strip(kids(n)[0])
+                if kind(l) == "DeclRefExpr":
+                    self.defs.setdefault(l.get("referencedDecl", {}).get("id"), []).append(kids(n)[1])
+            elif k == "CompoundAssignOperator" or (k == "UnaryOperator" and n.get("opcode") in ("++", "--")):
+                l = strip(kids(n)[0])
+                if kind(l) == "DeclRefExpr":
+                    self.dirty.add(l.get("referencedDecl", {}).get("id"))
+
+    def link(self, what, t, node, where=None):
+        return {"what": what, "type": t, "line": node.get("_line"), "file": where or self.a.F, "func": self.fn.name}
+
+    def is_prio_field(self, m):
+        fd = self.tu.by_id.get(m.get("referencedMemberDecl"))
+        rec = (self.tu.parent.get(id(fd)) or {}).get("name") if fd is not None else None
+        return fd is not None and rec == "tdma_sched_item" and m.get("name") == "prio"
+
+    def field_link(self, m):
+        fd = self.tu.by_id.get(m.get("referencedMemberDecl"))
+        t = int_type(self.tu, fd.get("type"))
+        if t is None:
+            return None
+        f = fd.get("_file") or ""
+        i = f.find(FW + "/")
+        where = f[i:] if i >= 0 else os.path.normpath(os.path.join(FW, f))
+        if os.path.isabs(where) or not os.path.isfile(os.path.join(self.a.L.repo, where)):
+            where = self.a.F
+        else:
+            self.a.L.unit(where)
+        l = self.link("item field tdma_sched_item.prio", t, fd, where)
+        l["func"] = "struct tdma_sched_item"
+        return l
+
+    def chains(self, e, depth=0):
+        if e is None or depth > 8:
+            return None
+        k, ks = kind(e), kids(e)
+        if k in ("ParenExpr", "ConstantExpr"):
+            return self.chains(ks[0], depth)
+        if k in ("ImplicitCastExpr", "CStyleCastExpr"):
+            ck = e.get("castKind")
+            if ck == "LValueToRValue":
+                return self.source(ks[0], depth)
+            if ck in ("IntegralCast", "NoOp"):
+                sub = self.chains(ks[0], depth)
+                t = int_type(self.tu, e.get("type"))
+                if sub is None or t is None:
+                    return None
+                l = self.link("%s conversion to %s" % ("implicit" if k == "ImplicitCastExpr" else "explicit", t[0]), t, e)
+                return [(src, links + [l]) for (src, links) in sub]
+        return None
+
+    def source(self, lv, depth):
+        while kind(lv) == "ParenExpr":
+            lv = kids(lv)[0]
+        k = kind(lv)
+        if k == "MemberExpr":
+            if not self.is_prio_field(lv):
+                return None
+            l = self.field_link(lv)
+            return [(("field",), [l])] if l is not None else None
+        if k == "DeclRefExpr":
+            rd = lv.get("referencedDecl", {})
+            did = rd.get("id")
+            t = int_type(self.tu, lv.get("type"))
+            if t is None:
+                return None
+            if rd.get("kind") == "ParmVarDecl":
+                if did in self.dirty or self.defs.get(did):
+                    return None
+                for i, p in enumerate(self.fn.params):
+                    if p["id"] == did:
+                        return [(("param", i, p.get("name")), [self.link("parameter %s of %s()" % (p.get("name"), self.fn.name), t, p)])]
+                return None
+            if rd.get("kind") == "VarDecl" and self.fn.vclass.get(did) == "scalar":
+                if did in self.dirty or not self.defs.get(did):
+                    return None
+                decl = self.tu.by_id.get(did) or lv
+                out = []
+                for rhs in self.defs[did]:
+                    sub = self.chains(rhs, depth + 1)
+                    if sub is None:
+                        return None
+                    l = self.link("local %s of %s()" % (rd.get("name"), self.fn.name), t, decl)
+                    out += [(src, links + [l]) for (src, links) in sub]
+                return out if len(out) <= 8 else None
+        return None
+
+
+def order_witness(la, lb):
+    """A pair of int16 priorities (pa, pb) for which `A(pa) > B(pb)` differs from `pa > pb`, where A/B are the
+    conversion chains of the two compared operands; None when the chains provably preserve the order;
+    AnalysisError when neither can be shown."""
+    def identity(links):
+        lo, hi = PRIO_LO, PRIO_HI
+        for l in links:
+            bits, signed = l["type"][1], l["type"][2]
+            tlo, thi = (-(1 << (bits - 1)), (1 << (bits - 1)) - 1) if signed else (0, (1 << bits) - 1)
+            if lo < tlo or hi > thi:
+                return False
+        return True
+    if identity(la) and identity(lb):
+        return None
+    # finite domain: tabulate both chains over all 65536 priorities
+    dom = range(PRIO_LO, PRIO_HI + 1)
+    A = [through(la, p) for p in dom]
+    B = A if lb is la else [through(lb, p) for p in dom]
+    cand = {0, 1, -1, PRIO_LO, PRIO_HI}
+    for l in list(la) + list(lb):
+        bits = l["type"][1]
+        for e in (bits - 1, bits):
+            for d in (-1, 0, 1):
+                for sgn in (1, -1):
+                    v = sgn * (1 << e) + d
+                    if PRIO_LO <= v <= PRIO_HI:
+                        cand.add(v)
+    best = None
+    for pa in sorted(cand, key=lambda v: (abs(v), v)):
+        for pb in sorted(cand, key=lambda v: (abs(v), v)):
+            if (A[pa - PRIO_LO] > B[pb - PRIO_LO]) != (pa > pb):
+                w = (abs(pa) + abs(pb), pa, pb)
+                if best is None or w < best:
+                    best = w
+    if best is not None:
+        return best[1], best[2]
+    for i in range(len(A) - 1):
+        if not (A[i + 1] > B[i]) or (A[i] > B[i + 1]):
+            return (i + 1 + PRIO_LO, i + PRIO_LO) if not (A[i + 1] > B[i]) else (i + PRIO_LO, i + 1 + PRIO_LO)
+    if A == B:
+        return None                       # equal and strictly increasing: order preserved
+    raise AnalysisError("priority conversion chains of the two compared operands differ and no counterexample "
+                        "was found -- unclassifiable")
+
+
+def first_lossy(links, p):
+    v = p
+    for i, l in enumerate(links):
+        w = conv(v, l["type"])
+        if w != v:
+            # an implicit conversion into a declared object (field, local, parameter) of that type: name the object
+            if l["what"].startswith("implicit") and i + 1 < len(links) and links[i + 1]["type"][1:] == l["type"][1:] \
+                    and not links[i + 1]["what"].startswith(("implicit", "explicit")):
+                l = links[i + 1]
+            return l, v, w
+        v = w
+    return None, p, v
+
+
+def chain_text(links):
+    out = []
+    for l in links:
+        if not out or out[-1] != l["type"][0]:
+            out.append(l["type"][0])
+    return " -> ".join(out)
+
+
+def r6_prio_width(a, sort):
+    """C08.R6 -- decides (a necessary condition of) "items of one frame run in ascending priority order" for
+    "priorities in int16": the value the sort compares for an item must be the priority its scheduler call was
+    given, for every priority in -32768..32767.  The types come from the resolved clang AST (typedefs
+    desugared): the parameter that is stored into item field `prio`, every integral conversion and scalar
+    temporary on the store path, the field itself, and every conversion / temporary between the field and
+    the two operands of the relational comparison in the sort helper.  The composed conversion chain is
+    evaluated over the finite priority domain; a violation is reported only with a concrete pair of priorities
+    whose comparison outcome differs from their true order (e.g. an 8-bit field: 128 is stored as -128 and
+    runs before 127).  Widening, renamed or added temporaries of sufficient width and value-restoring
+    round trips do not fire."""
+    R = "C08.R6"
+    if sort is None:
+        raise AnalysisError("tdma_sched_execute(): the priority sort helper could not be identified")
+    sname = sort[0]
+    # -- store paths
+    stores = []
+    for name, fn in a.fns.items():
+        flow = None
+        for s in fn.stores:
+            lv = s["lv"]
+            if not (lv[0] == "fld" and lv[2] == "prio"):
+                continue
+            ast = s["ast"]
+            lhs = strip(kids(ast)[0]) if kids(ast) else None
+            flow = flow or PrioFlow(a, fn)
+            if kind(lhs) != "MemberExpr" or not flow.is_prio_field(lhs):
+                continue
+            if not (kind(ast) == "BinaryOperator" and ast.get("opcode") == "=" and s["how"] == "assign"):
+                raise AnalysisError("%s(): item field prio is modified other than by assignment -- unclassifiable" % name)
+            rhs = kids(ast)[1]
+            if a.tu.fold(rhs) is not None:
+                continue                  # a constant priority, not a caller's
+            alts = flow.chains(rhs)
+            fl = flow.field_link(lhs)
+            if alts is None or fl is None:
+                raise AnalysisError("%s(): the value stored into item field prio is not a parameter / item priority "
+                                    "passed through integer conversions only -- unclassifiable" % name)
+            for (src, links) in alts:
+                stores.append((name, src, links + [fl], s["node"]))
+    a.L.floor(R, "stores of a caller's priority into item field prio", len([x for x in stores if x[1][0] == "param"]), 1)
+    # -- comparison operands in the sort helper
+    sfn = a.fns[sname]
+    flow = PrioFlow(a, sfn)
+    cmps = []
+    for n in walk(sfn.f):
+        if kind(n) == "BinaryOperator" and n.get("opcode") in ("<", ">", "<=", ">="):
+            ca, cb = flow.chains(kids(n)[0]), flow.chains(kids(n)[1])
+            pa = ca is not None and any(src == ("field",) for (src, _l) in ca)
+            pb = cb is not None and any(src == ("field",) for (src, _l) in cb)
+            touches = any(kind(x) == "MemberExpr" and flow.is_prio_field(x) for x in walk(n))
+            if not (pa or pb):
+                if touches:
+                    raise AnalysisError("%s(): relational comparison computed from item priorities other than by "
+                                        "integer conversions -- unclassifiable" % sname)
+                continue
+            if not (pa and pb) or any(src != ("field",) for (src, _l) in ca + cb):
+                raise AnalysisError("%s(): an item priority is compared with something that is not an item priority "
+                                    "-- unclassifiable" % sname)
+            cmps.append((n, ca, cb))
+    a.L.floor(R, "relational comparisons of item priorities in the sort helper", len(cmps), 1)
+    # -- composed chains
+    for (name, src, slinks, snode) in stores:
+        if src[0] != "param":
+            # priority copied from another item: the conversions in between must preserve what the field holds
+            ft = slinks[0]["type"]
+            bad = None
+            for p in (PRIO_LO, PRIO_HI, -1, 0, 255, 256, 127, 128, -128, -129):
+                q = conv(p, ft)
+                if PRIO_LO <= q <= PRIO_HI and through(slinks, q) != q:
+                    bad = q
+                    break
+            a.ob(R, name, "%s(): a priority copied from another item reaches item field prio unchanged" % name,
+                 "value preserved", "value preserved" if bad is None else
+                 "%s: priority %d is stored as %d" % (chain_text(slinks), bad, through(slinks, bad)), bad is None, snode)
+            continue
+        for (cn, ca, cb) in cmps:
+            verdicts = []
+            for (_s1, la) in ca:
+                for (_s2, lb) in cb:
+                    A = slinks + la
+                    B = A if la is lb else slinks + lb
+                    w = order_witness(A, B)
+                    verdicts.append((w, A, B))
+            bad = [v for v in verdicts if v[0] is not None]
+            if bad and len(bad) != len(verdicts):
+                raise AnalysisError("%s(): a compared priority has several definitions of different width -- "
+                                    "unclassifiable" % sname)
+            key = ("priority order: what %s() compares for an item stored by %s() is the caller's priority, for every "
+                   "priority in int16 (types of the parameter, item field prio, temporaries and comparison operands)" % (
+                       sname, name))
+            want = "order of all priorities -32768..32767 preserved"
+            if not bad:
+                A = verdicts[0][1]
+                a.ob(R, name, key, want, "%s: order preserved" % chain_text(A), True, snode)
+                continue
+            (pa, pb), A, B = bad[0]
+            la_, va, wa = first_lossy(A, pa)
+            lb_, vb, wb = first_lossy(B, pb)
+            l, v, w2 = (la_, va, wa) if la_ is not None else (lb_, vb, wb)
+            if l is None:
+                raise AnalysisError("priority conversion counterexample without a lossy link")
+            found = "%s: %s is %s and cannot hold priority %d (becomes %d): priorities %d and %d are compared as %d and %d" % (
+                chain_text(A if la_ is not None else B), l["what"], tdesc(l["type"]), v, w2, pa, pb, through(A, pa), through(B, pb))
+            a.L.ob(R, l["file"], l["func"], key, want, found, False, l["line"])
+
+
+# ---------------------------------------------------------------- R7 reset empties the ring
+
+CUR_LV = ("fld", SCHED, "cur_bucket")
+REPLAY_STEPS = 4000
+
+
+class Unknown(Exception):
+    pass
+
+
+def concretise(t, cur):
+    """The term with every load of sched->cur_bucket replaced by the constant `cur`, constants folded."""
+    if not isinstance(t, tuple):
+        return t
+    k = t[0]
+    if k == "ld" and t[1] == CUR_LV:
+        return X.C(cur)
+    if k in ("c", "p", "g", "loc", "fn", "undef", "sizeof", "str", "res", "phi", "mv", "ver"):
+        return t
+    sub = tuple(concretise(x, cur) if isinstance(x, tuple) else x for x in t[1:])
+    allc = all(isinstance(x, tuple) and x[0] == "c" for x in sub)
+    if k == "+":
+        return X.add(*sub)
+    if k == "*":
+        return X.mul(*sub)
+    if k == "mod":
+        if allc:
+            if sub[0][1] < 0 or sub[1][1] <= 0:
+                return ("mod",) + sub
+            return X.C(sub[0][1] % sub[1][1])
+        return X.mod(*sub)
+    if k == "div":
+        if allc:
+            if sub[0][1] < 0 or sub[1][1] <= 0:
+                return ("div",) + sub
+            return X.C(sub[0][1] // sub[1][1])
+        return ("div",) + sub
+    if k == "cmp":
+        if isinstance(sub[1], tuple) and isinstance(sub[2], tuple) and sub[1][0] == "c" and sub[2][0] == "c":
+            return X.C(int(sub[1][1] < sub[2][1] if sub[0] == "<" else sub[1][1] == sub[2][1]))
+        if sub[0] == "==" and sub[1] == sub[2]:
+            return C1
+        return ("cmp",) + sub
+    if k == "not":
+        return X.C(int(sub[0][1] == 0)) if allc else ("not",) + sub
+    if k in ("and", "or"):
+        vals = [x[1] != 0 if x[0] == "c" else None for x in sub]
+        if k == "and":
+            if any(v is False for v in vals):
+                return C0
+            return C1 if all(v is True for v in vals) else (k,) + sub
+        if any(v is True for v in vals):
+            return C1
+        return C0 if all(v is False for v in vals) else (k,) + sub
+    if k == "ite":
+        if sub[0][0] == "c":
+            return sub[1] if sub[0][1] != 0 else sub[2]
+        return X.ite(*sub)
+    if k == "&":
+        return X.band(*sub)
+    if k == "|":
+        return X.bor(*sub)
+    if k == "^":
+        return X.bxor(*sub)
+    if k == "<<":
+        return X.shl(*sub)
+    if k == ">>":
+        return X.shr(*sub)
+    if k == "padd":
+        return padd(*sub)
+    if k == "deref":
+        return deref(*sub)
+    if k == "addr":
+        return addr(*sub)
+    return (k,) + sub
+
+
+def replay_reset(a, name, cur):
+    """Concrete run of `name`() through its CFG with sched->cur_bucket == cur (the function has no other input
+    that its control flow may depend on): -> {bucket index: last constant written to its num_items}."""
+    fn = Fn(a.ctx, name)
+    if fn.params:
+        raise AnalysisError("%s(): takes parameters -- unclassifiable" % name)
+    g = fn.g
+    BUCKETS = ("fld", SCHED, "bucket")
+    written = {}
+    st, n, steps = {}, g.entry, 0
+    while n is not g.exit:
+        steps += 1
+        if steps > REPLAY_STEPS:
+            raise AnalysisError("%s(): no termination within %d steps for cur_bucket = %d" % (name, REPLAY_STEPS, cur))
+        n0 = len(fn.stores)
+        c0 = len(fn.calls)
+        fn.st, fn.cur, fn.rec, fn.k, fn.world = st, n, True, 0, False
+        val = None
+        try:
+            if n.kind == "stmt":
+                fn.exec_stmt(n.ast)
+            elif n.kind == "cond":
+                val = fn.rval(n.cond) if getattr(n, "cond", None) is not None else C1
+            elif n.kind not in ("entry", "label"):
+                raise AnalysisError("%s(): control construct (%s) outside the replayable vocabulary" % (name, n.kind))
+        finally:
+            fn.rec = False
+        if fn.world or fn.icalls:
+            raise AnalysisError("%s(): calls a function whose effect on the ring is unknown -- unclassifiable" % name)
+        for c in fn.calls[c0:]:
+            sub = a.ctx.fn(c["name"]) if c["name"] in a.tu.functions and c["name"] not in IO_FUNCS and \
+                c["name"] not in ("memset", "memcpy", "memmove") else None
+            if sub is not None and (sub.world or any(s["grp"] in TD_GROUPS + ("ALL", "OTHER") or
+                                                     (isinstance(s["grp"], tuple) and s["grp"][0] == "pp") for s in sub.stores)):
+                raise AnalysisError("%s(): delegates writes to %s() -- unclassifiable" % (name, c["name"]))
+        st = {k: concretise(v, cur) for k, v in fn.st.items()}
+        for s in fn.stores[n0:]:
+            grp = s["grp"]
+            lv = concretise(s["lv"], cur)
+            if grp == "cur_bucket" or (grp == "ALL" and "[]" not in lv_path(lv)[1]):
+                raise AnalysisError("%s(): writes cur_bucket / the whole scheduler (decided by R2) -- ring position not "
+                                    "constant during the reset" % name)
+            if grp == "num_items":
+                B = lv[1] if lv[0] == "fld" else None
+                v = concretise(s["val"], cur) if s["val"] is not None else None
+                if s["how"] != "assign" or B is None or not (B[0] == "idx" and B[1] == BUCKETS) or B[2][0] != "c" \
+                        or v is None or v[0] != "c":
+                    raise AnalysisError("%s(): write %s = %s to a fill count is not `bucket[constant].num_items = constant` "
+                                        "for cur_bucket = %d -- unclassifiable" % (
+                                            name, show(lv), show(v) if v is not None else s["how"], cur))
+                if not 0 <= B[2][1] < a.NFR:
+                    raise AnalysisError("%s(): bucket index %d outside the ring (decided by R2)" % (name, B[2][1]))
+                written[B[2][1]] = v[1]
+            elif grp == "ALL":
+                # memset(..., 0, ...) over one bucket or the whole bucket array
+                if not is_zero_fill(s) or not (lv[0] == "idx" and lv[1] == BUCKETS and lv[2][0] == "c"):
+                    raise AnalysisError("%s(): whole-bucket store %s is unclassifiable" % (name, show(lv)))
+                size = s.get("size")
+                one = ("sizeof", "struct tdma_sched_bucket")
+                if size == one:
+                    cnt = 1
+                elif size == ("sizeof", "struct tdma_sched_bucket[%d]" % a.NFR) and lv[2][1] == 0:
+                    cnt = a.NFR
+                else:
+                    raise AnalysisError("%s(): zero fill of size %s -- unclassifiable" % (name, show(size) if size else "?"))
+                for i in range(lv[2][1], lv[2][1] + cnt):
+                    if not 0 <= i < a.NFR:
+                        raise AnalysisError("%s(): zero fill beyond the ring" % name)
+                    written[i] = 0
+        if n.kind == "cond":
+            v = concretise(val, cur)
+            if v[0] != "c":
+                raise AnalysisError("%s(): branch on %s, which is not a function of the ring position -- unclassifiable" % (
+                    name, show(v)))
+            want = v[1] != 0
+            nxt = [s for (s, l) in n.succ if l == want]
+        else:
+            nxt = [s for (s, l) in n.succ]
+        for kk, vv in st.items():
+            if kk[0] == "L" and isinstance(vv, tuple) and vv[0] == "c" and not 0 <= vv[1] <= 255:
+                raise AnalysisError("%s(): local %s takes the value %d, outside the range in which integer conversions "
+                                    "are modelled as value-preserving" % (name, fn.keyname(kk), vv[1]))
+        if len(nxt) != 1:
+            raise AnalysisError("%s(): %d successors at a replayed node -- unclassifiable" % (name, len(nxt)))
+        n = nxt[0]
+    return written, fn
+
+
+def r7_reset(a):
+    """C08.R7 -- decides a necessary condition of "nothing runs in a frame it was not scheduled for" over
+    histories that contain reset operations: after tdma_sched_reset() no bucket other than the current one
+    (which the running tdma_sched_execute empties itself, R4) may still hold items scheduled before the reset.
+    The function's control flow depends on the ring position only, so it is evaluated concretely (constant
+    folding through its CFG, helper results inlined) for each of the ARRAY_SIZE(bucket) positions; the set of
+    bucket indices whose num_items ends as 0 must contain every index except possibly cur_bucket.  Which loop
+    form, index expression (absolute counter, offset through wrap_bucket, ...) or temporaries are used is
+    irrelevant; anything that cannot be evaluated is an AnalysisError."""
+    R = "C08.R7"
+    name = "tdma_sched_reset"
+    if name not in a.fns:
+        raise AnalysisError("anchor function %s() vanished from %s" % (name, a.F))
+    missing = {}
+    total = 0
+    fn = None
+    for cur in range(a.NFR):
+        written, fn = replay_reset(a, name, cur)
+        total += sum(1 for i, v in written.items() if v == 0)
+        miss = [i for i in range(a.NFR) if i != cur and written.get(i) != 0]
+        if miss:
+            missing[cur] = miss
+    a.L.floor(R, "buckets emptied by tdma_sched_reset, summed over all ring positions", total, 600)
+    want = "all %d other buckets emptied, for each of the %d ring positions" % (a.NFR - 1, a.NFR)
+    if not missing:
+        found = want
+    else:
+        offs = {c: sorted((i - c) % a.NFR for i in m) for c, m in missing.items()}
+        common = set.intersection(*[set(v) for v in offs.values()]) if len(offs) == a.NFR else set()
+        c0 = min(missing)
+        eg = "e.g. cur_bucket = %d: bucket[%s] keeps its items" % (c0, ", ".join(str(i) for i in missing[c0][:4]))
+        if common and all(set(v) == common for v in offs.values()):
+            found = "the bucket(s) %s frame(s) ahead of the current one are not emptied at any ring position (%s)" % (
+                ", ".join(str(o) for o in sorted(common)), eg)
+        else:
+            found = "not emptied at %d of %d ring positions (%s)" % (len(missing), a.NFR, eg)
+    node = None
+    for s in fn.stores:
+        if s["grp"] in ("num_items", "ALL"):
+            node = s["node"]
+            break
+    a.ob(R, name, "tdma_sched_reset(): for every ring position, every bucket other than the current one is emptied "
+         "(num_items = 0), so nothing scheduled before a reset runs after it", want, found, not missing,
+         node if node is not None else fn.f)
+
+
 # ---------------------------------------------------------------- who-may-write scan
 
 INTTYPES_STUB = """#ifndef _VERIF_INTTYPES_H
@@ -1858,15 +2404,14 @@ def who_may_write(a, tier):
 def run(L, tier):
     a = A(L)
     a.sort = None
-    errors = []
-    for rule in (r1_capacity, r2_ring, lambda x: who_may_write(x, tier), r3_single, r3_set, r4_execute, r5_sort):
-        try:
-            rule(a)
-        except AnalysisError as e:
-            errors.append(str(e))
-    if errors:
-        # a recognised violation stands even when another rule cannot classify the
-        # (same, edited) construct; without one there is no verdict
-        if all(o.ok for o in L.obs):
-            raise AnalysisError("; ".join(errors))
-        L.extra["unclassified"] = errors
+    # independent rule groups: an AnalysisError inside one is deferred (Ledger.stage), a violation recognised
+    # by another group is still reported
+    L.stage(r1_capacity, a)
+    L.stage(r2_ring, a)
+    L.stage(who_may_write, a, tier)
+    L.stage(r3_single, a)
+    L.stage(r3_set, a)
+    sort = L.stage(r4_execute, a)
+    L.stage(r5_sort, a, sort)
+    L.stage(r6_prio_width, a, sort)
+    L.stage(r7_reset, a)
